@@ -4,4 +4,5 @@
 using namespace simd;
 using dbm_t = sparse_dbm_domain<z_number, varname_t, G_int64>;
 using D = flat_boolean_numerical_domain<dbm_t>;
-SIM_REGISTER_DOMAIN(bool_zones_sparse, D, "bool_zones_sparse", CAP_BOOL | CAP_INT64 | CAP_NTOW)
+SIM_REGISTER_DOMAIN(bool_zones_sparse, D, "bool_zones_sparse",
+                    CAP_BOOL | CAP_INT64 | CAP_NTOW | CAP_BACKWARD)
